@@ -825,6 +825,40 @@ func Run(cfg vh.Config) (*vh.Result, error) {
 			}
 		}
 
+		{
+			sawAllow, sawSwitch, repeated := false, false, false
+			seenCall := map[string]bool{}
+			for i, o := range rr.obs {
+				if o.allow != 0 {
+					sawAllow = true
+				}
+				if o.engine != rr.obs[0].engine || (i == 0 && modeCoq(w.Engine) != map[types.RuleEngineStatus]string{types.RuleEngineOn: "MOn", types.RuleEngineDetectionOnly: "MDet", types.RuleEngineOff: "MOff"}[o.engine]) {
+					sawSwitch = true
+				}
+				switch calls[i].K {
+				case "prh", "prb", "presph", "prespb":
+					if seenCall[calls[i].K] {
+						repeated = true
+					}
+					seenCall[calls[i].K] = true
+				}
+			}
+			if sawAllow {
+				res.InputDistribution["allow_scope_active"]++
+			}
+			if sawSwitch {
+				res.InputDistribution["engine_switched_by_ctl"]++
+			}
+			if repeated {
+				res.InputDistribution["phase_call_repeated"]++
+			}
+			for _, r := range w.Rules {
+				if r.Chain != "" && rr.counts[r.ID] > 0 {
+					res.InputDistribution["chain_starter_matched"]++
+					break
+				}
+			}
+		}
 		key := w.sec() + "|" + fmt.Sprint(calls)
 		if !seen[key] {
 			seen[key] = true
@@ -898,7 +932,9 @@ func Run(cfg vh.Config) (*vh.Result, error) {
 		sort.Ints(ids)
 		var cts []string
 		for _, id := range ids {
-			cts = append(cts, fmt.Sprintf("(%d,%d)", id, rr.counts[id]))
+			if rr.counts[id] != 0 { // rules not listed are checked against 0 by CorrC02.ok
+				cts = append(cts, fmt.Sprintf("(%d,%d)", id, rr.counts[id]))
+			}
 		}
 		term := fmt.Sprintf("Case %s %s %s %s %s", cn, vh.List(cs), vh.List(os_), vh.List(ms), vh.List(cts))
 		acc.terms = append(acc.terms, term)
@@ -1001,42 +1037,53 @@ func Run(cfg vh.Config) (*vh.Result, error) {
 				}
 			}
 		}
-		// (3) exhaustive call sequences over ten-symbol alphabets
-		exLen := cfg.Pick(3, 4)
-		nTpl := cfg.Pick(3, 9)
-		for t := 0; t < nTpl; t++ {
-			var w wafCfg
-			for {
-				w = randomCfg(rng)
-				if w.Engine != "Off" || t%5 == 4 {
-					break
-				}
-			}
-			if t%3 == 0 { // a hand-made rich template: deny late in phase 2, allow:request in 1, ctl in 3
-				w = positional(engines[(t/3)%2], 2, 2, variants[1], "uri", nil, 3, "DetectionOnly")
-				w.Rules[0] = rawRule{ID: 10, Phase: 1, Cond: "reqhdr", Dacts: []dact{{K: "allow", Arg: "request"}}, Status: -1}
-			}
-			alpha := alphabets[t%len(alphabets)]
-			var rec func(prefix []call) error
-			rec = func(prefix []call) error {
-				if len(prefix) == exLen {
-					return add(w, append([]call(nil), prefix...), "exhaustive")
-				}
-				for _, c := range alpha {
-					if err := rec(append(prefix, c)); err != nil {
-						return err
+		// (3) exhaustive call sequences over ten-symbol alphabets: every sequence of exactly L calls
+		//     (each shorter sequence is a prefix of one of them and is compared call by call)
+		type exPlan struct{ n, length int }
+		plans := []exPlan{{4, 3}, {1, 4}}
+		if cfg.Thorough() {
+			plans = []exPlan{{5, 4}, {1, 5}}
+		}
+		t := int(cfg.Seed % 3)
+		for _, pl := range plans {
+			for k := 0; k < pl.n; k++ {
+				var w wafCfg
+				for {
+					w = randomCfg(rng)
+					if w.Engine != "Off" {
+						break
 					}
 				}
-				return nil
-			}
-			if err := rec(nil); err != nil {
-				return nil, err
+				if t%3 == 0 { // a hand-made rich template: allow:request in 1, deny late in phase 2, ctl in 3
+					w = positional(engines[(t/3)%2], 2, 2, variants[1], "uri", nil, 3, "DetectionOnly")
+					w.Rules[0] = rawRule{ID: 10, Phase: 1, Cond: "reqhdr", Dacts: []dact{{K: "allow", Arg: "request"}}, Status: -1}
+					if (t/3)%2 == 1 {
+						w.Rules[1] = rawRule{ID: 11, Phase: 1, Cond: "uri", Dacts: []dact{{K: "drop"}}, Status: 503}
+					}
+				}
+				alpha := alphabets[t%len(alphabets)]
+				t++
+				var rec func(prefix []call) error
+				rec = func(prefix []call) error {
+					if len(prefix) == pl.length {
+						return add(w, append([]call(nil), prefix...), fmt.Sprintf("exhaustive_len%d", pl.length))
+					}
+					for _, c := range alpha {
+						if err := rec(append(prefix, c)); err != nil {
+							return err
+						}
+					}
+					return nil
+				}
+				if err := rec(nil); err != nil {
+					return nil, err
+				}
+				res.Notes = append(res.Notes, fmt.Sprintf("exhaustive: all 10^%d sequences of %d calls over alphabet %d for one configuration (engine %s)", pl.length, pl.length, (t-1)%len(alphabets), w.Engine))
 			}
 		}
 		res.Exhaustive = false
-		res.Notes = append(res.Notes, fmt.Sprintf("exhaustive part: all %d-call sequences (every shorter sequence is a prefix) over a 10-symbol alphabet for %d configurations", exLen, nTpl))
 		// (4) random configurations x random / perturbed sequences
-		for i := 0; i < cfg.Pick(1500, 40000); i++ {
+		for i := 0; i < cfg.Pick(1500, 20000); i++ {
 			w := randomCfg(rng)
 			var s []call
 			if rng.Intn(2) == 0 {
